@@ -158,6 +158,25 @@ def run(tier):
             for name in ("time", "latitude", "longitude", "depth"):
                 if not np.array_equal(np.asarray(getattr(s1, name).values), np.asarray(getattr(s2, name).values)):
                     chk.violation("carry:%s" % name, "%s is not carried over by as_frequency_direction_spectrum" % name, ctx)
+    # every N in 8..180: the direction grid of the 2D spectrum is the uniform N-point grid and energy is conserved
+    f = np.linspace(0.05, 0.5, 4)
+    mm = M[[rng.randrange(len(quads)) for _ in range(4)]]
+    s1 = create_1d_spectrum(f, np.array([[1.0, 2.0, 0.5, 1.5]]), np.array([0]), np.zeros(1), np.zeros(1), a1=mm[None, :, 0], b1=mm[None, :, 1],
+                            a2=mm[None, :, 2], b2=mm[None, :, 3], depth=np.array([np.inf]))
+    for N in range(8, 181):
+        for v in (VARIANTS[:1] if (quick and N % 4) else VARIANTS[:2]):
+            try:
+                s2 = s1.as_frequency_direction_spectrum(N, method=v[0], **v[1])
+            except Exception as e:
+                chk.violation("raise:allN:%s" % vname(v), "as_frequency_direction_spectrum(%d) raised" % N, {"N": N, "error": str(e)[:200]})
+                continue
+            evals += 1
+            dd = s2.direction.values
+            okgrid = len(dd) == N and np.allclose(dd, np.arange(N) * 360.0 / N, rtol=0, atol=1e-9)
+            oke = np.allclose(s2.as_frequency_spectrum().e.values, s1.e.values, rtol=1e-8)
+            if not (okgrid and oke):
+                chk.violation("grid-N:%s" % vname(v), "as_frequency_direction_spectrum(N=%d): not the uniform N-point direction grid / energy not conserved" % N,
+                              {"N": N, "variant": vname(v), "n_directions": int(len(dd)), "e_back": s2.as_frequency_spectrum().e.values.tolist(), "e": s1.e.values.tolist()})
     chk.set("evaluations", evals)
     chk.set("distinct_nontrivial", len(distinct))
     chk.assume("the specification decides the quantifier domain (rational lattice inside the open unit disc, incl. unrealisable quadruples), the abstract "
